@@ -127,6 +127,23 @@ func runWorker(chk *checks.Check, tier string, seed int64, shard, nshards, secs 
 		}()
 		chk.Run(x)
 	}()
+	// Checks that enumerate inputs or environment answers case by case do
+	// not keep their own state/transition counters: for them a state of the
+	// closed system (driver + library) is one distinct explored case - the
+	// identity-hash set behind distinct_nontrivial - a transition is one
+	// guarded call into the library, a trace one execution (all of them run
+	// on the implementation itself).
+	if x.R.States == 0 {
+		x.R.States = x.R.Distinct
+		x.R.Extra["states_are"] = "distinct explored cases (identity hash set shared with distinct_nontrivial)"
+	}
+	if x.R.Transitions == 0 {
+		x.R.Transitions = checks.LibCalls
+		x.R.Extra["transitions_are"] = "guarded calls into the library"
+	}
+	if x.R.Traces == 0 {
+		x.R.Traces = x.R.Evaluations
+	}
 	b, _ := json.Marshal(&x.R)
 	if err := os.WriteFile(out, b, 0o644); err != nil {
 		fmt.Fprintln(os.Stderr, err)
